@@ -2,7 +2,7 @@
    Models: Enc/Payload.v (byte-level signing encodings), Enc/Merkle.v (Tree / BatchTree over an abstract collision-free
    hash), Enc/Cbor.v (cbor-gen item headers); tied to the code by byte-for-byte / digest-for-digest correspondence. *)
 From Coq Require Import ZArith List Bool.
-From F3 Require Import Payload PayloadProofs Merkle MerkleProofs Cbor CborProofs Codec CodecProofs CidModel SchemasGen.
+From F3 Require Import Payload PayloadProofs Merkle MerkleProofs Cbor CborProofs Codec CodecProofs CodecSound CidModel SchemasGen.
 Import ListNotations.
 
 (* the signed bytes determine every field (same network; and across networks when CIDs have equal length) *)
@@ -69,6 +69,13 @@ Print Assumptions C14_codec_encoding_injective.
 Theorem C14_codec_alloc_bounded : forall cid_ok s bs, Forall (fun a => a <= alloc_limit s)%Z (snd (decode cid_ok s bs)).
 Proof. exact codec_alloc_bounded. Qed.
 Print Assumptions C14_codec_alloc_bounded.
+(* and whatever bytes come in -- valid, truncated, oversized, hostile -- a value the reader returns is within the limits of
+   the Go type: integers in range, byte strings and lists no longer than their documented limits, fixed arrays of exactly
+   their size, castable CIDs, big integers of at most 128 encoded bytes *)
+Theorem C14_codec_decoded_values_within_limits : forall cid_ok s bs v rest, wf_schema s -> bytes_ok bs ->
+  fst (decode cid_ok s bs) = Some (v, rest) -> wfv cid_ok s v /\ bytes_ok rest.
+Proof. intros cid_ok s bs v rest Hw Hb H. exact (decode_sound cid_ok s Hw bs v rest Hb H). Qed.
+Print Assumptions C14_codec_decoded_values_within_limits.
 (* the schemas extracted from the current source satisfy the hypothesis of these theorems, and no reader of a wire or
    storage type ever requests more than 2 MiB at once (the signature limit of a finality certificate) *)
 Theorem C14_generated_schemas_wf : Forall wf_schema all_schemas.
